@@ -80,9 +80,29 @@ def merge_tagged(segs, tags):
         out.append(segs[i]); ot.append(tags[i]); i += 1
     return out, ot
 
+def expand_small_reps(segs):
+    """a repetition of constant bytes whose count is known to lie in a small interval [lo, hi] (padding of 1 or 2 zero
+    bytes) is lo copies followed by nested conditions `lo + k < count`"""
+    out = []
+    for s in segs:
+        if s[0] == 'rep' and s[2] is None and s[1][0] != 'c' and all(x[0] == 'int' and x[1][0] == 'c' for x in s[3]):
+            lo, hi = rng(s[1])
+            if 0 <= lo <= hi <= lo + 3 and hi <= 8:
+                out.extend(list(s[3]) * lo)
+                def nest(k):
+                    if k >= hi: return ()
+                    return (('cond', cmp('lt', C(k), s[1]), tuple(s[3]) + nest(k + 1), ()),)
+                out.extend(nest(lo))
+                continue
+        out.append(s)
+    return out
+
+def _same_cond(a, b, facts):
+    return a == b or equal(ite(a, ONE, ZERO), ite(b, ONE, ZERO), facts)[0]
+
 def compare(got, exp_segs, exp_tags, facts=()):
     """-> list of mismatches [(offset str, what)]; wildcard values (ANY) match any term of the same width"""
-    got = explode(norm_segs(list(got)))
+    got = explode(norm_segs(expand_small_reps(norm_segs(list(got)))))
     exp_segs, exp_tags = merge_tagged(exp_segs, exp_tags)
     exp, tags = expl_with_tags(exp_segs, exp_tags)
     # drop empty expected segments consistently with norm_segs
@@ -125,7 +145,7 @@ def compare(got, exp_segs, exp_tags, facts=()):
             sub = compare(g[3], list(e[3]), [None] * len(e[3]), facts)
             mism += [('%s+[i]*+%s' % (where, o), w) for o, w in sub]
         elif g[0] == 'cond':
-            if g[1] != e[1]:
+            if not _same_cond(g[1], e[1], facts):
                 mism.append((where, 'condition %s, specified %s' % (show(g[1]), show(e[1]))))
             else:
                 for a, b in ((g[2], e[2]), (g[3], e[3])):
